@@ -1194,6 +1194,18 @@ def strata_catalogue(tables, texts):  # pylint: disable=too-many-locals,too-many
 			return Edit('', path, new, 'Firstinclude', 'Expected first include to be', None, f'stratum {area}')
 		add(f'first include [{area}]', '#include', make)
 
+	def own_header_removed(rng, path, lines):
+		# a .cpp whose first include is its own header: delete that include altogether (the next include moves to the front)
+		if not path.endswith('.cpp') or '/int/' in path or '/bench/' in path or '/stress/' in path:
+			return None
+		block = [i for i in range(len(lines)) if re.match(r'^#include ["<]', lines[i])]
+		stem = path.rsplit('/', 1)[-1][:-4]
+		if len(block) < 2 or lines[block[0]] != f'#include "{stem}.h"':
+			return None
+		return Edit('', path, lines[:block[0]] + lines[block[0] + 1:], 'Firstinclude', 'Expected first include to be', None, 'stratum own header removed')
+	own_header_removed.wanted = 3
+	add('first include [own header removed]', '#include', own_header_removed)
+
 	def namespace_family(area):
 		def make(rng, path, lines):
 			if area_of(path) != area or '/int/' in path or '/bench/' in path or path.startswith('tests/int'):
